@@ -164,10 +164,14 @@ def rule_reduce(P) -> RuleResult:
             raise AnalysisError(f'anchor vanished: position / inventory overloads of {name}()')
         n += 1
 
-        def run(f):
+        def run(f, defaults=False):
             fi = f.impl
             off = 1 if (f.pass_context or f.pass_row) else 0
-            env = {p: Sym(f'EXTRA{i}') for i, p in enumerate(fi.params[off + 1:])}
+            # the extra arguments given, or left out (their defaults apply: what a missing date or currency stands for must be the
+            # same for a position and for an inventory)
+            n_def = len(fi.node.args.defaults)
+            extras = fi.params[off + 1:]
+            env = {p: Sym(f'EXTRA{i}') for i, p in enumerate(extras) if not (defaults and i >= len(extras) - n_def)}
             env[fi.params[off]] = VAL
             for p in fi.params[:off]:
                 env[p] = CTX
@@ -176,6 +180,8 @@ def rule_reduce(P) -> RuleResult:
             return fi, list(vals.values())
         pfi, pvals = run(pos_f[0])
         ifi, ivals = run(inv_f[0])
+        _, pvals_d = run(pos_f[0], True)
+        _, ivals_d = run(inv_f[0], True)
         construct = f'function:{inv_f[0].label}'
         ok = False
         shown = ''
@@ -187,8 +193,19 @@ def rule_reduce(P) -> RuleResult:
                 fn_name = fn[1] if isinstance(fn, tuple) and fn[0] == 'global' else None
                 ok = fn_name == pv[1] and iv[2][1:] == pv[2][1:] and not iv[3] and not pv[3]
             shown = f'position: {pv}; inventory: {iv}'
+        if ok and len(pvals_d) == 1 and len(ivals_d) == 1:
+            pv, iv = pvals_d[0], ivals_d[0]
+            same = isinstance(pv, tuple) and pv[0] == 'call' and isinstance(iv, tuple) and iv[0] == 'call' and iv[1] == 'VALUE.reduce' and \
+                iv[2][1:] == pv[2][1:]
+            if not same:
+                ok = False
+                shown = f'with the optional arguments left out - position: {pv}; inventory: {iv}'
+        elif ok:
+            ok = False
+            shown = 'several different results when the optional arguments are left out'
         if ok:
-            res.ok({'function': name, 'position': f'{pvals[0][1]}(pos, ...)', 'inventory': 'inv.reduce(the same function, the same extra arguments)'})
+            res.ok({'function': name, 'position': f'{pvals[0][1]}(pos, ...)', 'inventory': 'inv.reduce(the same function, the same extra arguments)',
+                    'defaults': 'the same for both'})
         else:
             res.fail(construct, 'reduce:definition', f'{name}(inventory) must be {name}(position) applied to every position of that very '
                      f'inventory - inv.reduce(f, extra...) with the f and the extra arguments of the position overload - so that it commutes '
